@@ -8,6 +8,7 @@ import (
 	"encoding/json"
 	"fmt"
 	"os"
+	"os/exec"
 	"sort"
 	"strings"
 	"testing"
@@ -91,6 +92,8 @@ type RunResult struct {
 	Tasks       []simrt.TaskInfo     `json:"tasks,omitempty"`
 	Sites       map[int]int          `json:"-"`
 	Switches    map[[2]int]int       `json:"-"`
+	SitesByName map[string]int       `json:"sites_by_name,omitempty"`
+	SwitchList  [][2]int             `json:"switch_list,omitempty"`
 	Infra       string               `json:"infra,omitempty"` // harness/infrastructure failure, never a violation
 }
 
@@ -216,8 +219,12 @@ func RunBatch(t *testing.T, hname, prop string, params map[string]string, base u
 			break
 		}
 		seed := base<<32 + uint64(i)
-		tape := simrt.NewTape(seed)
-		r := RunOne(t, hname, prop, params, tape, false)
+		var r RunResult
+		if isolateArgs != nil {
+			r = runIsolated(i, seed)
+		} else {
+			r = RunOne(t, hname, prop, params, simrt.NewTape(seed), false)
+		}
 		if br.Runs == 0 {
 			br.FirstSeed = seed
 		}
@@ -247,7 +254,13 @@ func RunBatch(t *testing.T, hname, prop string, params map[string]string, base u
 		for k, v := range r.Sites {
 			br.Sites[simrt.SiteName(k)] += v
 		}
+		for k, v := range r.SitesByName {
+			br.Sites[k] += v
+		}
 		for k := range r.Switches {
+			sw[k] = true
+		}
+		for _, k := range r.SwitchList {
 			sw[k] = true
 		}
 		if len(br.Samples) < 3 && r.Nontrivial {
@@ -325,6 +338,21 @@ func hasViolation(r RunResult, class, key string) *simrt.Violation {
 // Replay runs the tape of a replay file and reports whether the same
 // violation (class and key) recurs.
 func Replay(t *testing.T, rf *ReplayFile, keepTrace bool) (bool, RunResult) {
+	if len(rf.Tape) == 0 {
+		// witness identified by its seed only (a run that crashed the process
+		// leaves no recorded tape): re-run it in a child process
+		ps := ""
+		for k, v := range rf.Params {
+			if ps != "" {
+				ps += ","
+			}
+			ps += k + "=" + v
+		}
+		isolateArgs = []string{"-harness", rf.Harness, "-prop", rf.Property, "-base", fmt.Sprint(rf.Seed >> 32), "-params", ps}
+		r := runIsolated(int(rf.Seed&0xffffffff), rf.Seed)
+		isolateArgs = nil
+		return hasViolation(r, rf.Class, rf.Key) != nil, r
+	}
 	tape := simrt.NewReplayTape(rf.Seed, rf.Tape)
 	r := RunOne(t, rf.Harness, rf.Property, rf.Params, tape, keepTrace)
 	return hasViolation(r, rf.Class, rf.Key) != nil, r
@@ -356,6 +384,10 @@ func cloneTape(tp map[string][]int) map[string][]int {
 // streams come first so that fewer callers / faults are preferred, then the
 // schedule (fewer context switches).
 func Minimise(t *testing.T, rf *ReplayFile, maxReruns int) *ReplayFile {
+	if len(rf.Tape) == 0 {
+		out := *rf
+		return &out
+	}
 	best := cloneTape(rf.Tape)
 	reruns := 0
 	try := func(tp map[string][]int) bool {
@@ -363,8 +395,21 @@ func Minimise(t *testing.T, rf *ReplayFile, maxReruns int) *ReplayFile {
 			return false
 		}
 		reruns++
-		tape := simrt.NewReplayTape(rf.Seed, tp)
-		r := RunOne(t, rf.Harness, rf.Property, rf.Params, tape, false)
+		var r RunResult
+		if IsolateReplays {
+			c := *rf
+			c.Tape = tp
+			c.Trace, c.Tasks = nil, nil
+			ok, tape := replayInChild(&c)
+			if !ok {
+				return false
+			}
+			r.Tape = tape
+			r.Violations = []simrt.Violation{{Class: rf.Class, Key: rf.Key}}
+		} else {
+			tape := simrt.NewReplayTape(rf.Seed, tp)
+			r = RunOne(t, rf.Harness, rf.Property, rf.Params, tape, false)
+		}
 		if hasViolation(r, rf.Class, rf.Key) != nil {
 			// keep what the run actually consumed (drops unused tails)
 			best = r.Tape
@@ -466,6 +511,9 @@ func Minimise(t *testing.T, rf *ReplayFile, maxReruns int) *ReplayFile {
 	out.Minimised = true
 	out.Reruns = reruns
 	// final replay with trace for the human-readable schedule
+	if IsolateReplays {
+		return &out
+	}
 	ok, r := Replay(t, &out, true)
 	if ok {
 		out.Trace = r.Trace
@@ -488,3 +536,85 @@ func WriteJSON(path string, v any) error {
 }
 
 func newTape(seed uint64) *simrt.Tape { return simrt.NewTape(seed) }
+
+func siteName(k int) string { return simrt.SiteName(k) }
+
+// isolateArgs, when set, makes RunBatch execute every run in a child process
+// of this binary. It is the fallback for code under test that keeps
+// process-global state across runs (e.g. a package-level sync.Pool of
+// channels, which synctest refuses to share between bubbles), and it turns a
+// crash of the whole process into a recorded violation instead of a dead
+// worker.
+var isolateArgs []string
+
+func runIsolated(index int, seed uint64) RunResult {
+	out, err := os.CreateTemp("", "verif-single-*.json")
+	if err != nil {
+		return RunResult{Seed: seed, Infra: err.Error()}
+	}
+	out.Close()
+	defer os.Remove(out.Name())
+	args := append([]string{"-test.run", "^TestWorker$", "-test.timeout", "0", "-single", "-from", fmt.Sprint(index), "-out", out.Name()}, isolateArgs...)
+	cmd := exec.Command(os.Args[0], args...)
+	b, err := cmd.CombinedOutput()
+	var r RunResult
+	if data, e2 := os.ReadFile(out.Name()); e2 == nil && len(data) > 2 && err == nil {
+		if e3 := json.Unmarshal(data, &r); e3 == nil {
+			return r
+		}
+	}
+	// the child died: a crash of the process under simulation
+	r.Seed = seed
+	r.Nontrivial = true
+	msg := string(b)
+	key := "unknown"
+	for _, l := range strings.Split(msg, "\n") {
+		if strings.HasPrefix(l, "fatal error:") || strings.HasPrefix(l, "panic:") {
+			key = l
+			if len(key) > 120 {
+				key = key[:120]
+			}
+			break
+		}
+	}
+	if len(msg) > 6000 {
+		msg = msg[:6000]
+	}
+	r.Violations = []simrt.Violation{{Class: "C05/process-crash", Key: key, Detail: msg}}
+	r.Tape = nil
+	return r
+}
+
+// IsolateReplays makes the minimiser run every candidate tape in a child
+// process (same reason as isolateArgs).
+var IsolateReplays bool
+
+func replayInChild(rf *ReplayFile) (bool, map[string][]int) {
+	in, err := os.CreateTemp("", "verif-cand-*.json")
+	if err != nil {
+		return false, nil
+	}
+	in.Close()
+	defer os.Remove(in.Name())
+	outp := in.Name() + ".out"
+	defer os.Remove(outp)
+	if WriteJSON(in.Name(), rf) != nil {
+		return false, nil
+	}
+	cmd := exec.Command(os.Args[0], "-test.run", "^TestWorker$", "-test.timeout", "0", "-replay", in.Name(), "-out", outp)
+	if err := cmd.Run(); err != nil {
+		return false, nil
+	}
+	data, err := os.ReadFile(outp)
+	if err != nil {
+		return false, nil
+	}
+	var res struct {
+		Reproduced bool             `json:"reproduced"`
+		Tape       map[string][]int `json:"tape"`
+	}
+	if json.Unmarshal(data, &res) != nil {
+		return false, nil
+	}
+	return res.Reproduced, res.Tape
+}
